@@ -73,6 +73,7 @@ type WKey struct {
 	PublicRaw    string `json:"public_raw,omitempty"`    // replace the public material by this text
 	KeyTypeRaw   string `json:"key_type_raw,omitempty"`  // with KeyTypeSet: replace the key type by this text
 	KeyTypeSet   bool   `json:"key_type_set,omitempty"`
+	CertOf       string `json:"cert_of,omitempty"`       // the key object also carries a (self-signed) certificate of this pool key
 }
 
 type World struct {
@@ -445,6 +446,9 @@ func (b *Built) VerifierKeyMap() map[string]intoto.Key {
 		key := k.Pub()
 		if wk.WithPrivate {
 			key = k.Full()
+		}
+		if wk.CertOf != "" {
+			key.KeyVal.Certificate = SelfSignedPEM(PoolKey(wk.CertOf))
 		}
 		if wk.PublicOf != "" {
 			key.KeyVal.Public = PoolKey(wk.PublicOf).PublicString()
